@@ -123,6 +123,7 @@ theorem poller_eventually_returns (r : Run St Op step) (hwf : WeakFair r prog) (
         | wait => simp [hpc, polling] at hp
         | tryWait => simp [hpc, polling] at hp
         | twait d => simp [hpc, polling] at hp
+        | twTry ms => simp [hpc, polling] at hp
       obtain ⟨m1, hm1, hall⟩ := hen
       obtain ⟨m, hm, ht⟩ := hwf u m1 hall
       exact hcon ⟨m, by omega, hstay m (by omega), ht⟩
